@@ -756,8 +756,8 @@ class Fxp():
         # convert to (numpy) ndarray
         if isinstance(val, (list, tuple)):
             _val = np.array(val)
-            if _val.dtype.kind == 'f':
-                # lists of python integers beyond 64 bits must not be converted to float
+            if _val.dtype.kind in 'fu':
+                # lists of python integers beyond the int64 range must not be converted to float nor to unsigned 64 bits
                 _obj_val = np.array(val, dtype=object)
                 if _obj_val.shape == _val.shape and all(isinstance(v, int) for v in _obj_val.flat):
                     _val = _obj_val
